@@ -7,6 +7,8 @@
     writer.partition_on_columns   -> gen_dir_path / gen_relname   (directory naming only: the `path = join_path(...)` and
                                                                    `relname = join_path(path, partname)` statements)
     util.val_from_meta            -> gen_bool_true_texts     (inventory: the texts the bool branch accepts as True)
+    util.metadata_from_many       -> gen_verify_raises       (verify_schema: which files are compared with which, by `!=` on the lists of
+                                                              SchemaElement objects - not on a rendering of them)
     util.metadata_from_many       -> gen_fast_rel            (fast path only: the relative path `f[len(basepath):].lstrip("/")` stored in
                                                               the first chunk of every row group; both occurrences must agree)
     api._path_to_cats             -> gen_hive_hits / gen_drill_hits / gen_add_hit / gen_final_cats / gen_path_to_cats
@@ -1145,7 +1147,40 @@ def translate_units(util_src, writer_src, api_src=None, core_src=None):
     def u_rowfill():
         return translate_row_fill(find_def(ct, "read_row_group"))
 
-    top = [("analyse", u_analyse, []), ("strip", u_strip, []), ("booltexts", u_booltexts, []), ("fastrel", u_fastrel, [])]
+    def u_verify():
+        """util.metadata_from_many: `if verify_schema: for pf in pfs[A:]: if pf._schema != pfs[B]._schema: raise ValueError(...)`"""
+        fd = find_def(ut, "metadata_from_many")
+        hit = None
+        for n in ast.walk(fd):
+            if isinstance(n, ast.If) and same_expr(n.test, "verify_schema") and not n.orelse:
+                hit = n
+        if hit is None or len(hit.body) != 1 or not isinstance(hit.body[0], ast.For) or hit.body[0].orelse:
+            raise Unsupported("metadata_from_many: `if verify_schema: for pf in pfs[..]:` not found")
+        loop = hit.body[0]
+        it = loop.iter
+        if not (target_names(loop.target) == "pf" and isinstance(it, ast.Subscript) and same_expr(it.value, "pfs") and isinstance(it.slice, ast.Slice)
+                and it.slice.upper is None and it.slice.step is None and isinstance(it.slice.lower, ast.Constant) and isinstance(it.slice.lower.value, int)
+                and it.slice.lower.value >= 0):
+            _bad(loop, "files compared by the verification")
+        start = it.slice.lower.value
+        if not (len(loop.body) == 1 and isinstance(loop.body[0], ast.If) and not loop.body[0].orelse and len(loop.body[0].body) == 1
+                and isinstance(loop.body[0].body[0], ast.Raise) and ast.unparse(loop.body[0].body[0].exc).startswith("ValueError(")):
+            _bad(loop, "body of the verification loop")
+        t = loop.body[0].test
+        if not (isinstance(t, ast.Compare) and len(t.ops) == 1 and isinstance(t.ops[0], ast.NotEq) and same_expr(t.left, "pf._schema")
+                and isinstance(t.comparators[0], ast.Attribute) and t.comparators[0].attr == "_schema"
+                and isinstance(t.comparators[0].value, ast.Subscript) and same_expr(t.comparators[0].value.value, "pfs")
+                and isinstance(t.comparators[0].value.slice, ast.Constant) and isinstance(t.comparators[0].value.slice.value, int)
+                and t.comparators[0].value.slice.value >= 0):
+            _bad(t, "comparison of the verification (expected pf._schema != pfs[<n>]._schema: list inequality of the SchemaElement objects)")
+        ref = t.comparators[0].value.slice.value
+        return ("(* util.metadata_from_many, line %d: does verify_schema raise?  schemas = [pf._schema for pf in pfs]; schema_ne a b stands for a != b *)\n"
+                "Definition gen_verify_raises {S : Type} (schema_ne : S -> S -> bool) (schemas : list S) : bool :=\n"
+                "  match skipn %d schemas with\n  | [] => false\n  | later => match nth_error schemas %d with\n"
+                "              | Some s0 => existsb (fun s => schema_ne s s0) later\n              | None => false\n              end\n  end.\n\n"
+                % (loop.lineno, start, ref))
+
+    top = [("analyse", u_analyse, []), ("strip", u_strip, []), ("booltexts", u_booltexts, []), ("fastrel", u_fastrel, []), ("verify", u_verify, [])]
     sec = [("pathstring", u_pathstring, []), ("valtonum", u_valtonum, []), ("naming", u_naming, ["pathstring"]), ("cats", u_cats, []),
            ("valfrommeta", u_valfrommeta, ["booltexts"]), ("rowfill", u_rowfill, [])]
     text, ok, failed = [HEADER], [], {}
